@@ -987,4 +987,81 @@ theorem corrRow_spec (d : Nat) (op : Nat → Nat → K) (fs : List (Site K)) (i 
     unfold leftEnv at this
     exact this.symm
 
+/-! ### general matrix element of a one-site operator -/
+
+theorem prodOp_skip2 (i : Nat) (rest : List (Nat → Nat → K)) (s t : List Nat) (hs : i ≤ s.length)
+    (ht : i ≤ t.length) :
+    prodOp (List.replicate i identOp ++ rest) s t
+      = if s.take i = t.take i then prodOp rest (s.drop i) (t.drop i) else 0 := by
+  induction i generalizing s t with
+  | zero => simp
+  | succ i ih =>
+    cases s with
+    | nil => simp at hs
+    | cons x s =>
+      cases t with
+      | nil => simp at ht
+      | cons y t =>
+        simp only [List.replicate_succ, List.cons_append, prodOp, List.drop_succ_cons, List.take_succ_cons,
+          List.cons.injEq]
+        rw [ih s t (by simpa using hs) (by simpa using ht)]
+        by_cases hxy : x = y
+        · subst hxy; simp [identOp]
+        · simp [identOp, hxy]
+
+theorem prodOp_ident2 (m : Nat) (s t : List Nat) (hs : s.length = m) :
+    prodOp (List.replicate m (identOp : Nat → Nat → K)) s t = if s = t then 1 else 0 := by
+  rw [prodOp_diag _ (by intro f hf; rw [List.eq_of_mem_replicate hf]; exact identOp_diag)]
+  split
+  · rw [← hs, prodOp_ident]
+  · rfl
+
+theorem prodOp_oneSite_general (n i : Nat) (O : Nat → Nat → K) (s t : List Nat) (hs : s.length = n)
+    (ht : t.length = n) (hi : i < n) :
+    prodOp (oneSiteOps n i O) s t =
+      if s.take i = t.take i ∧ s.drop (i + 1) = t.drop (i + 1) then O (s.getD i 0) (t.getD i 0) else 0 := by
+  unfold oneSiteOps
+  rw [prodOp_skip2 i _ s t (by omega) (by omega), drop_eq_getD_cons s i (by omega),
+    drop_eq_getD_cons t i (by omega)]
+  simp only [prodOp]
+  rw [prodOp_ident2 (n - i - 1) _ _ (by simp; omega)]
+  by_cases h1 : s.take i = t.take i <;> by_cases h2 : s.drop (i + 1) = t.drop (i + 1) <;> simp [h1, h2]
+
+/-! ### `MPS.norm()` squared -/
+
+theorem normSqAt_spec (d : Nat) (fs : List (Site K)) (c : Nat) (hW : Wf fs) (h1 : headDl fs = 1)
+    (hd : ∀ A ∈ fs, A.d = d) (hc : Canonical fs c) (hcn : c < fs.length) :
+    normSqAt d fs c = some (denseNormSq d fs) := by
+  have hF : fs[c]? = some fs[c] := List.getElem?_eq_getElem hcn
+  generalize fs[c] = Fc at hF
+  unfold normSqAt
+  rw [hF]
+  simp only [Option.map_some, Option.some.injEq, sumTo_eq, conj_eq_star]
+  have hRm : ∀ A ∈ fs.drop (c + 1), RightIso A := by
+    intro A hA
+    obtain ⟨i, hi, e⟩ := mem_drop_index fs (c + 1) A hA
+    exact hc.2 i (by omega) A e
+  have hLm : ∀ A ∈ fs.take c, LeftIso A := by
+    intro A hA
+    obtain ⟨i, hi, e⟩ := mem_take_index fs c A hA
+    exact hc.1 i hi A e
+  have hval : localValF d identOp Fc = siteVal identOp fs c := by
+    rw [siteVal_eq identOp fs c Fc hF hW]
+    exact value_right d identOp _ _ Fc Fc (hd Fc (List.mem_of_getElem? hF))
+      (invR_base _ _ (leftEnv_delta_at fs c Fc hF hW h1 hLm)) (rightEnv_delta_at fs c Fc hF hW hRm)
+  have hloc : localValF d identOp Fc
+      = ∑ l ∈ range Fc.dl, ∑ x ∈ range d, ∑ r ∈ range Fc.dr, star (Fc.t x l r) * Fc.t x l r := by
+    unfold localValF
+    rw [identOp_eq_delta, sum_delta_left d (fun x y => ∑ l ∈ range Fc.dl, ∑ r ∈ range Fc.dr, star (Fc.t x l r) * Fc.t y l r)]
+    rw [Finset.sum_comm]
+  rw [← hloc, hval]
+  unfold siteVal
+  rw [xfer_eq_dense d fs _ hW h1 hd (oneSiteOps_length _ _ _ hcn).symm,
+    denseProd_diag d _ fs (oneSiteOps_diag _ _ _ identOp_diag)]
+  unfold denseDiag denseNormSq
+  refine Dark.sumStrings_congr' _ _ _ _ (fun s hs _ => ?_)
+  simp only []
+  rw [prodOp_oneSite _ c identOp s hs hcn]
+  simp [identOp, conj_eq_star]
+
 end EmuVerif.MpsObs
